@@ -80,6 +80,16 @@ PROPS = {
                      "failing, keys changing as a side effect), timeouts 1h/2h/24h/negative, results with and without messages; clock advanced by "
                      "back-dating every cache file (never within a second of a timeout boundary); foreign content planted under existing names; "
                      "entries removed.  Every invocation's (real?, completion) is compared with the model; non-trivial = at least two invocations"),
+    "C15": dict(streams=[dict(harness="crash", model="crash", oracle=None, quick=2600, thorough=8000,
+                             project=lambda f, x: x[:1],
+                             oracle_py=lambda f, impl: [] if impl and impl[0] in (b"recomputed", b"new", b"old") else
+                                 [("partial-served", (impl[1] if len(impl) > 1 else b"")[:60])],
+                             nontrivial=lambda f, impl: True)],
+                tie="Model/FsCrash.v under the protocol read off Gen/Sites.v (file operations of internal/cache, pkg/cache) <-> real writer processes cut by RLIMIT_FSIZE and fresh reader processes",
+                rule="cases = ENUMERATED: flavour (Action export JSON, raw bytes) x entry size (1, 20, 150 bytes of payload) x previous complete entry "
+                     "(absent / present, expired) x interruption (write error with SIGXFSZ ignored / process killed) x every cut offset k = 0..len+1 "
+                     "(every third offset for the largest size in the quick tier); each case runs a writer process under RLIMIT_FSIZE = k and a fresh "
+                     "reader process; exhaustive over that space"),
 }
 
 TRUSTED = ["Go harness stream(s) and extracted oracle of this property (see rule)"]
